@@ -237,7 +237,7 @@ post_process_2pass(j_decompress_ptr cinfo, _JSAMPIMAGE input_buf,
   if (num_rows > max_rows)
     num_rows = max_rows;
   /* We have to check bottom of image here, can't depend on upsampler. */
-  max_rows = cinfo->output_height - post->starting_row;
+  max_rows = cinfo->output_height - post->starting_row - post->next_row;
   if (num_rows > max_rows)
     num_rows = max_rows;
 
